@@ -55,6 +55,19 @@ def handle (j : Json) : Except String Json := do
           bad := some (a, b)
     pure <| Json.mkObj [("pairs", Json.num (n : Int)), ("zero_product", Json.bool zeroSeen),
       ("bad", match bad with | none => Json.null | some (a, b) => Json.arr #[ratToJson a, ratToJson b])]
+  | "member" =>
+    -- which of the candidate values belong to the (non-float) operand type `q` (sampling device of the
+    -- float-cell clause: the factors offered to a floating operand)
+    let q ← qrecOfJson (← j.getObjVal? "q")
+    let vs ← getRatList j "vals"
+    pure <| Json.mkObj [("in", Json.arr (vs.map (fun v => Json.bool (valB q v))).toArray)]
+  | "floatval" =>
+    -- `ValFloat bits` (IEEE interchange format of that width) on a list of values; the harness compares
+    -- the answers with numpy's casts, which ties the value-set model of Props.C16 to real IEEE types
+    let bits ← getInt j "bits"
+    let vs ← getRatList j "vals"
+    pure <| Json.mkObj [("known_width", Json.bool (floatFmt bits).isSome),
+                        ("in", Json.arr (vs.map (fun v => Json.bool (valFloatB bits v))).toArray)]
   | _ => throw s!"unknown op {op}"
 
 def main : IO Unit := lineLoop handle
